@@ -414,7 +414,11 @@ func (s *SymDense) SymOuterK(alpha float64, x Matrix) {
 			s.CopySym(w)
 			putSymDenseWorkspace(w)
 		} else {
-			switch r := x.(type) {
+			xU, _ := untransposeExtract(x)
+			switch r := xU.(type) {
+			case RawVectorer:
+				rows, cols := xU.Dims()
+				s.checkOverlap(generalFromVector(r.RawVector(), rows, cols))
 			case RawMatrixer:
 				s.checkOverlap(r.RawMatrix())
 			case RawSymmetricer:
